@@ -78,6 +78,7 @@ func (c *canon) run() {
 // statements
 
 func (c *canon) stmts(list []ast.Stmt) []ast.Stmt {
+	list = c.splitBoolReturns(list)
 	for i, s := range list {
 		list[i] = c.stmt(s)
 		if f, ok := list[i].(*ast.ForStmt); ok {
@@ -92,6 +93,55 @@ func (c *canon) stmts(list []ast.Stmt) []ast.Stmt {
 	}
 	return list
 }
+
+// splitBoolReturns: `return <comparison or &&/||/! expression>` (one bool result) becomes
+// `if <expr> { return true }; return false` — the spelled-out form the tidy-up replaces.
+func (c *canon) splitBoolReturns(list []ast.Stmt) []ast.Stmt {
+	var out []ast.Stmt
+	changed := false
+	for _, s := range list {
+		rs, ok := s.(*ast.ReturnStmt)
+		if !ok || len(rs.Results) != 1 {
+			out = append(out, s)
+			continue
+		}
+		e := ast.Unparen(rs.Results[0])
+		isOp := false
+		switch x := e.(type) {
+		case *ast.BinaryExpr:
+			switch x.Op {
+			case token.LAND, token.LOR, token.EQL, token.NEQ, token.LSS, token.GTR, token.LEQ, token.GEQ:
+				isOp = true
+			}
+		case *ast.UnaryExpr:
+			isOp = x.Op == token.NOT
+		}
+		tv, has := c.info.Types[e]
+		if !isOp || !has || tv.Value != nil {
+			out = append(out, s)
+			continue
+		}
+		if b, isBasic := tv.Type.Underlying().(*types.Basic); !isBasic || b.Info()&types.IsBoolean == 0 {
+			out = append(out, s)
+			continue
+		}
+		mk := func(name string) *ast.Ident {
+			id := &ast.Ident{NamePos: rs.Return, Name: name}
+			c.info.Uses[id] = types.Universe.Lookup(name)
+			c.info.Types[id] = types.TypeAndValue{Type: tv.Type, Value: constantBool(name == "true")}
+			return id
+		}
+		ifs := &ast.IfStmt{If: rs.Return, Cond: e, Body: &ast.BlockStmt{Lbrace: rs.Return, List: []ast.Stmt{&ast.ReturnStmt{Return: rs.Return, Results: []ast.Expr{mk("true")}}}, Rbrace: rs.End()}}
+		out = append(out, ifs, &ast.ReturnStmt{Return: rs.Return, Results: []ast.Expr{mk("false")}})
+		changed = true
+	}
+	if !changed {
+		return list
+	}
+	return out
+}
+
+func constantBool(b bool) constant.Value { return constant.MakeBool(b) }
 
 // recvLoopToRange: the spelled-out forms of `for v := range ch`:
 //
